@@ -7,6 +7,10 @@ from . import core
 from .core import digest
 
 VALUES8 = [0, 1, 0x7F, 0x80, 0xFF]
+# multi-byte text inserted into textual formats (width code 0xFB, value = index): characters whose lower- / upper-case form has another
+# UTF-8 length (I-dot, sharp S, ligatures), CJK, separators that some line splitters honour, a character outside the BMP, BOM, NBSP
+UTF8_INSERTS = ["\u0130", "\u1e9e", "\u00e9", "\u65e5\u672c\u8a9e", "\u2028", "\U0001d11e", "\u01c5", "\ufb03", "\r", "\t\t", "\u00a0", "\ufeff", "\u0130\u0130\u0130\u0130", "\u00df"]
+QUAD16 = [(3, 0xFFFF, 0x400, 1), (0xFFFF, 3, 0x400, 1), (0xFFFF, 0xFFFF, 3, 1), (1, 0xFFFF, 0xFFFF, 1), (2, 2, 0xFFFF, 0xFFFF), (0xFFFF, 1, 1, 0xFFFF), (0x4000, 0x4000, 0x40, 1)]
 
 
 def field_values(width, orig, total_len):
@@ -77,7 +81,23 @@ def mutations(seed, rng, budget, big_endian=False, dense_limit=1536, text=False,
             add(p, 0xFF, b | (1 << 8), "insert")
     for p in [0, n // 2, n]:
         add(p, 0xFF, 0x41 | (70000 << 8), "insert-long")
+    if not text:
+        # several header fields damaged together in a self-consistent way (a size and its bound, width x height x depth):
+        # single-field faults cannot reach the arithmetic behind a cross-check of two fields
+        for o in range(0, min(n, 96), 2):
+            if o % 4 == 0 and o + 8 <= n:
+                for v in (0xFFFFFFFF, 0x7FFFFFFF, 0x40000000, (n + 1) & 0xFFFFFFFF, 0x10000):
+                    add(o, 8, v | (v << 32), "header-field-pair32")
+            if o + 8 <= n:
+                for q in QUAD16:
+                    add(o, 8, q[0] | (q[1] << 16) | (q[2] << 32) | (q[3] << 48), "header-field-quad16")
     if text:
+        starts0 = sorted(set([0, n] + [i for i in range(n) if seed[i] not in b"\t\r\n,=; " and (i == 0 or seed[i - 1] in b"\t\r\n,=; ")]))
+        if len(starts0) > 120:
+            starts0 = starts0[:60] + rng.sample(starts0[60:], 60)
+        for st in starts0:
+            for k in range(len(UTF8_INSERTS)):
+                add(st, 0xFB, k, "insert-utf8")
         # token-level faults of textual formats: every field replaced by boundary numbers / removed
         starts = [i for i in range(n) if seed[i] not in b"\t\r\n,=; " and (i == 0 or seed[i - 1] in b"\t\r\n,=; ")]
         if len(starts) > 400:
@@ -94,8 +114,10 @@ def mutations(seed, rng, budget, big_endian=False, dense_limit=1536, text=False,
         tok = [m for m in out if m[3].startswith("token-")]
         rng.shuffle(tok)
         hf = [m for m in out if m[3].startswith("header-field")]
-        tok = tok[:budget // 3] + hf
-        rest = [m for m in out if not is_tr(m) and not m[3].startswith("token-") and not m[3].startswith("header-field")]
+        u8 = [m for m in out if m[3] == "insert-utf8"]
+        rng.shuffle(u8)
+        tok = tok[:budget // 3] + hf + u8[:max(300, budget // 6)]
+        rest = [m for m in out if not is_tr(m) and not m[3].startswith("token-") and not m[3].startswith("header-field") and m[3] != "insert-utf8"]
         rng.shuffle(rest)
         out = tr + tok + rest[:max(0, budget - len(tr) - len(tok))]
     # structural faults that must not be lost to sampling (link cycles, ...)
@@ -137,6 +159,9 @@ def apply_mutation(seed, off, w, v):
             if off + i < len(b):
                 b[off + i] = be[8 - k + i]
         return bytes(b)
+    if w == 0xFB:
+        at = min(off, len(b))
+        return bytes(b[:at]) + UTF8_INSERTS[v % len(UTF8_INSERTS)].encode("utf-8") + bytes(b[at:])
     if w in (0xFC, 0xFD, 0xFE):
         at = min(off, len(b))
         end = at
@@ -187,7 +212,7 @@ def run_batch(ctx, kind, seed, muts, aux=(), label="", expect_err_on_truncate=Fa
                 files = save_case(ctx, seed, muts[case])
                 ctx.violation("panic", dict(kind="panic", entry=entry, file=f, line_text=text, msg=core.msg_class(s["msg"])),
                               dict(count=s["count"], first_case=dict(offset=o, width=w, value=val, operator=cls, seed_len=len(seed)), msg=s["msg"][:200], line=l, label=label),
-                              files=files, commands=[dict(verb="fault.batch", args=[kind, files[0], files[1], prog, 0, work] + list(aux))])
+                              files=files, commands=[dict(verb="fault.batch", args=[kind, files[0], files[1], prog, 0, work] + list(aux), skew=(case + rec.get("skew", 0)) % 4)])
             oversz = {o.get("case"): o for o in rec.get("oversize") or []}
             for fl in v["flags"]:
                 case = fl["case"]
@@ -204,7 +229,7 @@ def run_batch(ctx, kind, seed, muts, aux=(), label="", expect_err_on_truncate=Fa
                 if fl["kind"] == "residual":
                     sig.update(bytes=fl["value"])
                 ctx.violation(fl["kind"], sig, dict(value=fl["value"], budget=fl["budget"], case=dict(offset=o, width=w, value=val, operator=cls, seed_len=len(seed)), label=label),
-                              files=files, commands=[dict(verb="fault.batch", args=[kind, files[0], files[1], prog, 0, work] + list(aux))])
+                              files=files, commands=[dict(verb="fault.batch", args=[kind, files[0], files[1], prog, 0, work] + list(aux), skew=(case + rec.get("skew", 0)) % 4)])
             if expect_err_on_truncate or must_not_be_ok:
                 for case in v["ok_cases"]:
                     o, w, val, cls = muts[case]
@@ -212,7 +237,7 @@ def run_batch(ctx, kind, seed, muts, aux=(), label="", expect_err_on_truncate=Fa
                     if bad:
                         files = save_case(ctx, seed, muts[case])
                         ctx.violation("partial", dict(kind="partial", entry=entry, sub="ok_on_truncated_input"), dict(case=dict(offset=o, seed_len=len(seed)), label=label), files=files,
-                                      commands=[dict(verb="fault.batch", args=[kind, files[0], files[1], prog, 0, work] + list(aux))])
+                                      commands=[dict(verb="fault.batch", args=[kind, files[0], files[1], prog, 0, work] + list(aux), skew=(case + rec.get("skew", 0)) % 4)])
                         break
             start += done
             break
@@ -237,7 +262,7 @@ def run_batch(ctx, kind, seed, muts, aux=(), label="", expect_err_on_truncate=Fa
                     site, text = core.sanitizer_site(rec.get("stderr", ""))
                 ctx.violation("abort", dict(kind="abort", entry=entry, what=what, file=site, line_text=text),
                               dict(case=dict(offset=o, width=w, value=val, operator=cls, seed_len=len(seed)), stderr=rec.get("stderr", "")[-1500:], label=label),
-                              files=files, commands=[dict(verb="fault.batch", args=[kind, files[0], files[1], prog, 0, work] + list(aux))])
+                              files=files, commands=[dict(verb="fault.batch", args=[kind, files[0], files[1], prog, 0, work] + list(aux), skew=(case + rec.get("skew", 0)) % 4)])
             st.evaluations += case - start + 1
             start = case + 1
             continue
